@@ -212,6 +212,8 @@ func buildProperties() []Property {
 				{"R-SHIFT-GUARD", 2, ruleShiftGuard},
 				{"R-IFACE-EQ", 10, ruleIfaceEq},
 				{"R-ENUM-TOTAL", 15, ruleEnumTotal},
+				{"R-PANIC-BARRIER", 4, rulePanicBarrier},
+				{"R-ERR-ISO", 250, ruleErrIso},
 			},
 		},
 	}
